@@ -145,6 +145,11 @@ def ctor_fields(f, rep):
         subj = '%s::%s' % (ty, ctor)
         if cb is None: rep.ob('anchor', subj, False, 'constructor not found'); continue
         I = new_interp(f)
+        if ty in I.ctor_closed:
+            # the private state is no longer the specified fields; every value of the type is new(arguments) and the layout
+            # rules evaluate the serialiser on exactly that (symbolic receivers are built through the constructor)
+            rep.analysed.add(cb['def'])
+            rep.ob('ctor-fields', subj, True, '', sp=cb['sp'], detail={'fields': len(fields), 'through_constructor': True}); continue
         args = sym_args(I, cb); P = {n_: a for (n_, _), a in zip(params_of(cb), args)}
         st = run_fn(I, cb['def'], args); rep.analysed.add(cb['def'])
         if I.tops or not isinstance(st, StructV): rep.undecided('ctor-fields', subj, I.tops, cb['sp']); continue
